@@ -3,7 +3,6 @@
    series' bytes with `range(i, len)`.  [column_by_cells] turns the indexed access into a map over the
    cells; the per-kind lemmas then compare one cell. *)
 From Coq Require Import ZArith NArith List Bool Lia ZifyBool ZifyNat ZifyN.
-From NV Require Import Base.Percent.
 From NV Require Import Bcf.Ints Bcf.IntsProofs Bcf.Typed Bcf.Strings Bcf.StringsProofs Bcf.Genotype Bcf.StringMap
   Bcf.StringMapProofs Bcf.Record Bcf.RecordTyped Bcf.NeverPanics Bcf.Lazy Bcf.LazyProofs Bcf.LazySiteProofs
   Bcf.LazyInfoProofs.
@@ -184,13 +183,28 @@ Proof.
     split; [cbn [map]; rewrite Hm; reflexivity|]. constructor; assumption.
 Qed.
 
-(* the classes on one cell *)
-Definition cell_first_ascii (x : list N) : bool :=
-  match until_nul x with c :: _ => (c <? 128)%N | [] => true end.
-Definition cell_chars_plain (x : list N) : bool := chars_plain (until_nul x).
-(* lazy-string-array-empty, lazy-array-percent-escape *)
-Definition cell_strs_plain (x : list N) : bool :=
-  match until_nul x with [] => false | s => strs_plain s end.
+(* the class on one cell: the eager model (NV.Bcf.Strings.first_char) takes the first BYTE of a cell /
+   of an element for its first character, the lazy model decodes the first character; they are the same
+   thing when that byte is ASCII *)
+Definition first_ascii (p : str) : bool := match p with c :: _ => (c <? 128)%N | [] => true end.
+Definition cell_first_ascii (x : list N) : bool := first_ascii (until_nul x).
+Definition cell_pieces_first_ascii (x : list N) : bool := forallb first_ascii (split_on comma (until_nul x)).
+
+Lemma first_char_agree : forall p o, first_char p = ROk o -> first_ascii p = true -> lz_first_char p = ROk o.
+Proof.
+  intros p o H Ha. destruct p as [|c r]; [discriminate|]. cbn [first_char] in H. cbn [first_ascii] in Ha.
+  unfold lz_first_char. cbn [utf8_first]. rewrite Ha. exact H.
+Qed.
+
+Lemma first_chars_agree : forall ps l, map_rres first_char ps = ROk l -> forallb first_ascii ps = true ->
+  map_rres lz_first_char ps = ROk l.
+Proof.
+  induction ps as [|p ps IH]; intros l H Ha; [exact H|].
+  cbn [forallb] in Ha. apply andb_prop in Ha. destruct Ha as [Ha1 Ha2]. cbn [map_rres] in *.
+  destruct (first_char p) as [o| |] eqn:Ef; try discriminate. cbn [rbind] in H.
+  destruct (map_rres first_char ps) as [l1| |] eqn:Em; try discriminate. cbn [rbind] in H.
+  rewrite (first_char_agree p o Ef Ha1). cbn [rbind]. rewrite (IH l1 eq_refl Ha2). exact H.
+Qed.
 
 Lemma fmt_chars_cells : forall cells l,
   map_rres first_char (map until_nul cells) = ROk l ->
@@ -205,27 +219,13 @@ Proof.
     destruct (map_rres first_char (map until_nul cells)) as [l1| |] eqn:Em; try discriminate. cbn [rbind] in H.
     injection H as Hl. subst l. cbn [map_rres map]. rewrite (IH l1 eq_refl Hvs Hp2).
     unfold lz_string_cell at 1, lz_cell_string. rewrite Hx. cbn [rbind].
-    unfold first_char in Ef. unfold cell_first_ascii in Hp1.
-    destruct (until_nul x) as [|b s]; [discriminate|]. injection Ef as Hc. subst c.
-    cbn [utf8_first]. rewrite Hp1. unfold char_of_byte. destruct (N.eqb b dot); reflexivity.
-Qed.
-
-Lemma first_chars_pieces : forall ps l, map_rres first_char ps = ROk l -> forallb ascii_piece ps = true ->
-  l = map char_of_byte (concat ps).
-Proof.
-  induction ps as [|p ps IH]; intros l H Hp; cbn [map_rres] in H.
-  - injection H as Hl. subst l. reflexivity.
-  - cbn [forallb] in Hp. apply andb_prop in Hp. destruct Hp as [Hp1 Hp2].
-    destruct p as [|c [|c2 p]]; try discriminate Hp1.
-    cbn [first_char rbind] in H.
-    destruct (map_rres first_char ps) as [l1| |] eqn:Em; try discriminate. cbn [rbind] in H.
-    injection H as Hl. subst l. cbn [concat app map]. rewrite (IH l1 eq_refl Hp2). reflexivity.
+    rewrite (first_char_agree _ _ Ef Hp1). reflexivity.
 Qed.
 
 Lemma fmt_char_arrays_cells : forall cells l,
   map_rres (fun s => rbind (map_rres first_char (split_on comma s)) (fun l => ROk (Some l))) (map until_nul cells) = ROk l ->
   Forall (fun x => utf8_valid (until_nul x) = true) cells ->
-  forallb cell_chars_plain cells = true ->
+  forallb cell_pieces_first_ascii cells = true ->
   map_rres (lz_string_cell (FChar false)) cells = ROk (map CCV l).
 Proof.
   induction cells as [|x cells IH]; intros l H Hv Hp; cbn [map map_rres] in H.
@@ -235,11 +235,7 @@ Proof.
     match type of H with rbind ?m _ = _ => destruct m as [l1| |] eqn:Em; try discriminate end. cbn [rbind] in H.
     injection H as Hl. subst l. cbn [map_rres map]. rewrite (IH l1 eq_refl Hvs Hp2).
     unfold lz_string_cell at 1, lz_cell_string. rewrite Hx. cbn [rbind].
-    unfold cell_chars_plain, chars_plain in Hp1.
-    rewrite (first_chars_pieces _ _ Ef Hp1).
-    unfold lz_chars. destruct (until_nul x) as [|b s] eqn:Eu.
-    + cbn [split_on forallb ascii_piece andb] in Hp1. discriminate.
-    + rewrite (char_pieces_agree _ Hp1). reflexivity.
+    rewrite (first_chars_agree _ _ Ef Hp1). reflexivity.
 Qed.
 
 Lemma fmt_strings_cells : forall cells,
@@ -251,22 +247,12 @@ Proof.
   unfold lz_string_cell at 1, lz_cell_string. rewrite Hx. reflexivity.
 Qed.
 
-Lemma fmt_str_arrays_cells : forall v44 cells,
+(* String arrays: the same function in both readers since 0b0f2ab *)
+Lemma fmt_str_arrays_cells : forall cells,
   Forall (fun x => utf8_valid (until_nul x) = true) cells ->
-  forallb cell_strs_plain cells = true ->
-  exists cs, map_rres (lz_string_cell (FStr false)) cells = ROk cs /\
-    map (cell_norm v44) cs = map (cell_norm v44) (map CSV (map cell_strs (map until_nul cells))).
+  map_rres (lz_string_cell (FStr false)) cells = ROk (map CSV (map cell_strs (map until_nul cells))).
 Proof.
-  intros v44. induction cells as [|x cells IH]; intros Hv Hp.
-  - exists []. split; reflexivity.
-  - inversion Hv as [|? ? Hx Hvs]. subst. cbn [forallb] in Hp. apply andb_prop in Hp. destruct Hp as [Hp1 Hp2].
-    destruct (IH Hvs Hp2) as [cs [Hm Hn]].
-    unfold cell_strs_plain in Hp1. destruct (until_nul x) as [|b s] eqn:Eu; [discriminate|].
-    exists (CSV (Some (map str_of_piece (split_on comma (b :: s)))) :: cs). split.
-    + cbn [map_rres]. rewrite Hm. unfold lz_string_cell, lz_cell_string. rewrite Eu. rewrite Hx. cbn [rbind].
-      unfold lz_strs. unfold strs_plain in Hp1. rewrite (str_pieces_agree _ Hp1); [reflexivity|].
-      apply (split_pieces_valid (length (b :: s))); [lia|exact Hx].
-    + cbn [map]. rewrite Hn. f_equal. rewrite Eu. unfold cell_strs.
-      destruct (str_eqb (b :: s) [dot]) eqn:Ed; [|reflexivity].
-      apply str_eqb_eq in Ed. rewrite Ed. reflexivity.
+  induction cells as [|x cells IH]; intros Hv; [reflexivity|].
+  inversion Hv as [|? ? Hx Hvs]. subst. cbn [map_rres map]. rewrite (IH Hvs).
+  unfold lz_string_cell at 1, lz_cell_string. rewrite Hx. reflexivity.
 Qed.
